@@ -28,7 +28,7 @@ from harness.core import Component, Ctx, run_component, Infra, _canon, first_dif
 
 RULE = ("refl.text: ASCII strings over a whitespace/punctuation/case-heavy alphabet (exact) + a unicode stream (spec level); "
         "refl.turn: histories of 1-4 real run_turn calls with per-turn gate flags, backend, limits/caps (0, null, negative), "
-        "scripted reflect duration around the wall budget, fault scripts, reused/fresh ctx; a case is non-trivial when it "
+        "scripted reflect duration around the wall budget, fault scripts, reused/fresh ctx, logical-clock boundary values (now_ms 0/1/None/large, now_iso absent/string/non-string) with every such history run twice under two different faked wall clocks, llm histories over ONE fixture path whose file is removed/truncated/rewritten between turns; a case is non-trivial when it "
         "hits at least one non-default branch tag (gate closed by each flag, error kinds, timeout, caps, stale-ctx turn, ...); "
         "distinct by canonical JSON")
 ASSUMPTIONS = [
@@ -37,7 +37,7 @@ ASSUMPTIONS = [
     "the duration of reflect() is a clock oracle (time.perf_counter is scripted; elapsed > budget is compared in integer microseconds)",
     "scheduler slices (early yield returns) are off in the generated turns: a yielded turn returns before the tail and is not modelled here",
     "the embedding vector's values are not compared (presence only)",
-    "ctx.now_ms is an int (so run_turn derives ctx.now_iso; with a non-int now_ms the writer's fallback int() raises inside write_reflection_entries and the tail swallows it: nothing written)",
+    "the ctx's logical clock is modelled for now_ms in {int, None} and ctx.now_iso absent / caller string / caller non-string (run_turn's head derives now_iso once from an int now_ms; the writer prefers a string now_iso, else its epoch fallback of now_ms; now_ms=None makes int() raise inside the writer and the tail swallows it: nothing written); float / negative now_ms are not generated",
     "ctx accepts setattr (SimpleNamespace / TurnCtx), state is a dict",
     "every turn of a history gets a distinct input text, so the orchestrator's turn-level T2 cache keyed on (version, text) — C05's subject — does not replay an earlier turn's retrieval into the snippets",
 ]
@@ -212,6 +212,31 @@ def iso_from_ms(ms: int) -> str:
     return datetime.fromtimestamp(ms / 1000.0, tz=timezone.utc).isoformat()
 
 
+def fallback_ts(ms: int) -> str:
+    """the writer's own epoch fallback (reflection.py:_now_iso_from_ctx)"""
+    return f"1970-01-01T00:00:{ms // 1000:02d}.{ms % 1000:03d}Z"
+
+
+def render_ts(ts: dict) -> str:
+    if ts["k"] == "iso":
+        return iso_from_ms(ts["ms"])
+    if ts["k"] == "lit":
+        return dec(ts["s"])
+    return fallback_ts(ts["ms"])
+
+
+def iso_attr_value(iso: Any):
+    """case-level `iso` -> the value the caller puts on ctx.now_iso (the sentinel _ABSENT: attribute not supplied)"""
+    if iso is None:
+        return _ABSENT
+    if "lit" in iso:
+        return iso["lit"]
+    return iso["nonstr"]
+
+
+_ABSENT = object()
+
+
 def pure_id(agent: str, turn: str, slot: int, text: str) -> str:
     h = hashlib.sha256()
     h.update(agent.encode("utf-8")); h.update(b"|"); h.update(turn.encode("utf-8")); h.update(b"|")
@@ -228,7 +253,7 @@ def fixture_key(agent: str, plan_flag: bool, snips: List[str], limit: int, turn:
 
 class TurnComp(Component):
     name = "refl.turn"
-    budget = {"quick": 500, "thorough": 9000, "search": 1500}
+    budget = {"quick": 500, "thorough": 6000, "search": 1500}
     scratch: Optional[Path] = None
     _cfg_cache: Dict[str, dict] = {}
 
@@ -266,7 +291,7 @@ class TurnComp(Component):
         o["logFaultKind"] = rng.choice(["site", "append"])
         o["runFaultExc"] = rng.choice(EXCS)
         t = {"turn_id": i + 1 if rng.random() < 0.9 else rng.choice([7, 10, 123]),
-             "nowMs": rng.choice([0, 0, 1000, 86400000, 1700000000000, 1234567]),
+             "nowMs": rng.choice([0, 0, 0, 1, 1000, 86400000, 1700000000000, 1234567, None]),
              "dry": rng.random() < 0.12, "t4on": rng.random() < 0.9,
              "plan": rng.random() < 0.6, "sflag": rng.random() < 0.15,
              "cfg": {"allow": rng.random() < 0.8, "backend": backend, "topk": rng.choice([0, 1, 2, 3, 3, 5]), "limit": limit,
@@ -328,8 +353,32 @@ class TurnComp(Component):
                     tt["t"]["dry"] = True
                 elif k == "dry_not4":
                     tt["t"].update({"dry": True, "t4on": False})
+        # the ctx's logical clock: now_iso not supplied (run_turn derives it) / a caller string / a non-string
+        ir = rng.random()
+        iso: Any = None
+        if ir < 0.10:
+            iso = {"lit": rng.choice(["2024-05-06T07:08:09Z", "1970-01-01T00:00:12.345Z", "not-a-date", ""])}
+        elif ir < 0.30:
+            iso = {"nonstr": rng.choice([None, 0, 5, 12.5, False])}
+        shared_fx = False
+        if backend == "llm" and n >= 2 and rng.random() < 0.6:
+            # one fixture path for the whole history whose file is removed / truncated / rewritten between turns
+            shared_fx = True
+            for j, rec in enumerate(turns):
+                rec["t"].update({"dry": False, "plan": True})
+                rec["t"]["cfg"].update({"allow": True, "fxEnabled": True, "fxPathOk": True, "opsCap": rng.choice([1, 2, 5]),
+                                        "limit": rng.choice([1, 2, 3, 8, 128]), "wallMs": rng.choice([None, 6000])})
+                rec["o"].update({"mode": "real", "runFault": False, "indexMissing": False, "writeFault": False, "addFail": [],
+                                 "elapsedUs": 0})
+                if rec["t"]["nowMs"] is None:
+                    rec["t"]["nowMs"] = 1000
+                if j == 0 or rng.random() < 0.3:
+                    rec["o"]["adapter"] = {"text": rng.choice(["the agent agreed to ship", "Recap: two open items.", "ok"])}
+                else:
+                    rec["o"]["adapter"] = rng.choice(["initfail", "missing", "missing"])
+        boundary = iso is not None or any(r["t"]["nowMs"] in (0, None, 1) for r in turns)
         return {"agent": rng.choice(["a1", "Ambrose", "ag-2", "X"]), "reuse": reuse, "uni": uni, "turns": turns,
-                "det": rng.random() < 0.3}
+                "iso": iso, "shared_fx": shared_fx, "det": boundary or shared_fx or rng.random() < 0.3}
 
     # ---- driving the real code ----------------------------------------------------------------------------
     def _validated(self, over: dict) -> dict:
@@ -352,7 +401,9 @@ class TurnComp(Component):
                 "scheduler": {"budgets": budgets}}
 
     @staticmethod
-    def _fx_path(root: str, ti: int, t: dict, o: dict) -> Optional[str]:
+    def _fx_path(root: str, ti: int, t: dict, o: dict, shared: bool = False) -> Optional[str]:
+        if t["cfg"]["fxPathOk"] and shared:
+            return f"{root}/fx_shared.jsonl"      # one path for the whole history; its CONTENT changes between turns
         if t["cfg"]["fxPathOk"]:
             return f"{root}/absent_{ti}.jsonl" if o["adapter"] == "initfail" else f"{root}/fx_{ti}.jsonl"
         return "" if ti % 2 else None
@@ -449,11 +500,24 @@ class TurnComp(Component):
 
         real_pc = _time.perf_counter
         real_append = olog.append_jsonl
+        import datetime as _dtmod
+        real_dt = _dtmod.datetime
+        wall_base = {"on": 1924992000.25, "off": 1924992000.25, "perturb": 1988150400.75}[variant]
+
+        class FakeDT(real_dt):   # modules that read the wall clock through `datetime.datetime.now/utcnow` see this
+            @classmethod
+            def now(cls, tz=None):
+                return real_dt.fromtimestamp(wall_base, tz)
+
+            @classmethod
+            def utcnow(cls):
+                return real_dt.utcfromtimestamp(wall_base)
         had_reflect = "reflect" in vars(orch)
         prev_reflect = vars(orch).get("reflect")
         outs: List[dict] = []
         try:
             TR.make_ctx = make_ctx
+            _dtmod.datetime = FakeDT
             _time.perf_counter = lambda: clk[0]
             setattr(orch, "reflect", my_reflect)
             for ti, rec in enumerate(case["turns"]):
@@ -472,9 +536,38 @@ class TurnComp(Component):
                 calls["reflect"] = 0
                 # fixtures for the llm backend
                 c = t["cfg"]
-                fx_path = self._fx_path(str(root), ti, t, o)
+                shared = bool(case.get("shared_fx"))
+                fx_path = self._fx_path(str(root), ti, t, o, shared)
                 _p, mc = self.effective_cfg(t, fx_path)
-                if c["fxPathOk"]:
+
+                def prompt_hash_of(tj: dict) -> str:
+                    mcj = self.effective_cfg(tj, fx_path)[1]
+                    pj, _ = fixture_key(agent, bool(tj["plan"]) and not tj["dry"], self._snips_for_prompt(tj, R, mcj["topk"]),
+                                        mcj["limit"], tj["turn_id"],
+                                        R._normalize(tj["utter"] if not tj["dry"] else "", keep_punct=True))
+                    return importlib.import_module("clematis.adapters.llm")._prompt_hash(pj)
+
+                if c["fxPathOk"] and shared:
+                    # the file's CURRENT content is this turn's adapter oracle: removed / rewritten without this
+                    # prompt's entry (or truncated) / rewritten with it.  Entries for the LATER turns' prompts are
+                    # present too, so anything that keeps an earlier parse alive serves a stale completion later.
+                    fx_file = root / "fx_shared.jsonl"
+                    ad = o["adapter"]
+                    later = [json.dumps({"prompt_hash": prompt_hash_of(r2["t"]), "completion": f"stale completion parsed at turn {ti}"})
+                             for r2 in case["turns"][ti + 1:]]
+                    if ad == "initfail":
+                        if fx_file.exists():
+                            fx_file.unlink()
+                    elif ad == "missing":
+                        me = prompt_hash_of(t)
+                        keep = [] if ti % 2 else [l for l in later if json.loads(l)["prompt_hash"] != me]
+                        fx_file.write_text("".join(l + "\n" for l in keep), encoding="utf-8")
+                    else:
+                        me = prompt_hash_of(t)
+                        lines = [l for l in later if json.loads(l)["prompt_hash"] != me]
+                        lines.append(json.dumps({"prompt_hash": me, "completion": ad["text"]}))
+                        fx_file.write_text("\n".join(lines) + "\n", encoding="utf-8")
+                elif c["fxPathOk"]:
                     fx_file = root / f"fx_{ti}.jsonl"
                     ad = o["adapter"]
                     if ad != "initfail":
@@ -494,6 +587,9 @@ class TurnComp(Component):
                 w.spec["now_ms"] = t["nowMs"]
                 w.spec["ctx_extra"] = {"_dry_run_until_t4": bool(t["dry"]),
                                        "turn_artifacts": {"t2_snippets": list(t["arts"])}}
+                isov = iso_attr_value(case.get("iso"))
+                if isov is not _ABSENT:
+                    w.spec["ctx_extra"]["now_iso"] = isov
                 if t["sflag"]:
                     w.state["_planner_reflection_flag"] = True
                 else:
@@ -544,6 +640,7 @@ class TurnComp(Component):
             raise Infra(f"rig error: {e}")
         finally:
             TR.make_ctx = real_make
+            _dtmod.datetime = real_dt
             _time.perf_counter = real_pc
             olog.append_jsonl = real_append
             if had_reflect:
@@ -578,9 +675,11 @@ class TurnComp(Component):
     # ---- model request / comparison ---------------------------------------------------------------------
     def model_turn(self, case: dict, rec: dict, ti: int = 0) -> dict:
         t, o = rec["t"], rec["o"]
-        _plain, c = self.effective_cfg(t, self._fx_path("/scratch", ti, t, o))
+        _plain, c = self.effective_cfg(t, self._fx_path("/scratch", ti, t, o, bool(case.get("shared_fx"))))
         bad_topk, bad_limit = c.pop("_bad_topk"), c.pop("_bad_limit")
-        mt = {"agent": case["agent"], "turn": str(t["turn_id"]), "nowMs": t["nowMs"], "dry": t["dry"], "t4on": t["t4on"],
+        mt = {"agent": case["agent"], "turn": str(t["turn_id"]), "nowMs": t["nowMs"],
+              "iso": (None if case.get("iso") is None else ({"lit": case["iso"]["lit"]} if "lit" in case["iso"] else "nonstr")),
+              "dry": t["dry"], "t4on": t["t4on"],
               # in a dry run T3 is skipped: the plan is the placeholder (reflection False) and the utterance is ""
               "plan": bool(t["plan"]) and not t["dry"], "sflag": t["sflag"],
               "cfg": c,
@@ -652,7 +751,7 @@ class TurnComp(Component):
                       "reason": m["log"]["reason"], "fixture_key": fk, "on_disk": True}
             out.append({"reached": m["reached"], "called": m["called"],
                         "written": [{"id": pure_id(dec(w["agent"]), dec(w["turn"]), w["slot"], dec(w["idText"])), "owner": "agent",
-                                     "ts": iso_from_ms(w["tsMs"]), "kind": "summary", "tags": ["reflection"], "text": dec(w["text"]),
+                                     "ts": render_ts(w["ts"]), "kind": "summary", "tags": ["reflection"], "text": dec(w["text"]),
                                      "vec": w["vec"]} for w in m["written"]],
                         "log": lg, "raised": None})
         return out
@@ -704,11 +803,24 @@ class TurnComp(Component):
     def monitors(self, case, impl_out):
         res: List[Tuple[str, bool, str]] = []
         on, off = impl_out["on"], impl_out["off"]
-        first_ms: Optional[int] = None
+        attr: Any = _ABSENT          # ctx.now_iso as the turn sees it after run_turn's head
         for i, (rec, x) in enumerate(zip(case["turns"], on)):
             t, o = rec["t"], rec["o"]
-            if first_ms is None or not case["reuse"]:
-                first_ms = t["nowMs"]
+            if not case["reuse"]:
+                attr = _ABSENT
+            pres = iso_attr_value(case.get("iso"))
+            if pres is not _ABSENT:
+                attr = ("given", pres)
+            elif attr is _ABSENT and isinstance(t["nowMs"], int):
+                attr = ("derived", t["nowMs"])
+            if t["nowMs"] is None:
+                want_ts = None       # no turn clock: the writer cannot stamp an entry; nothing may be written
+            elif attr is not _ABSENT and attr[0] == "derived":
+                want_ts = iso_from_ms(attr[1])
+            elif attr is not _ABSENT and isinstance(attr[1], str):
+                want_ts = attr[1]
+            else:
+                want_ts = fallback_ts(int(t["nowMs"]))
             lim = max(0, self.model_turn(case, rec, i)["t"]["cfg"]["limit"])
             if x["raised"] is not None:
                 res.append(("turn_completes", False, f"turn {i}: run_turn raised {x['raised']}"))
@@ -719,8 +831,9 @@ class TurnComp(Component):
                     res.append(("id_pure", e["id"] in ids, f"turn {i}: id {e['id']} is not refl-<turn>-<agent>-<slot>-sha256(agent|turn|slot|text)[:12] for text {e['text']!r}"))
                     res.append(("summary_len_py", len(str(e["text"]).split()) <= lim,
                                 f"turn {i}: stored summary {e['text']!r} has {len(str(e['text']).split())} tokens > summary_tokens {lim}"))
-                res.append(("ts_logical", e["ts"] == iso_from_ms(first_ms),
-                            f"turn {i}: ts {e['ts']} is not the ctx's logical timestamp {iso_from_ms(first_ms)}"))
+                res.append(("ts_logical", e["ts"] == want_ts,
+                            f"turn {i}: ts {e['ts']!r} is not the pure function of the turn clock (now_ms={t['nowMs']!r}, "
+                            f"now_iso={'absent' if attr is _ABSENT else attr!r}): expected {want_ts!r}"))
                 res.append(("entry_shape", e["owner"] == "agent" and e["kind"] == "summary" and e["tags"] == ["reflection"],
                             f"turn {i}: entry shape {e}"))
             if len(x["rlog"]) > 1:
@@ -740,7 +853,7 @@ class TurnComp(Component):
         if "perturb" in impl_out:
             for i, (x, z) in enumerate(zip(on, impl_out["perturb"])):
                 if x["written"] != z["written"] or x["rlog"] != z["rlog"]:
-                    res.append(("clock_indep", False, f"turn {i}: ids/ts/records depend on the measured duration"))
+                    res.append(("clock_indep", False, f"turn {i}: ids/ts/records differ between two runs of the same history under different wall clocks / reflect durations"))
         # summarise: one positive entry per monitor name so that evidence shows they ran
         names = {"turn_completes", "id_pure", "summary_len_py", "ts_logical", "entry_shape", "one_log_line", "isolation",
                  "off_is_off", "clock_indep"}
@@ -753,6 +866,16 @@ class TurnComp(Component):
             tg.add("reuse_ctx")
         if case.get("uni"):
             tg.add("unicode")
+        if case.get("iso") is not None:
+            tg.add("clock:now_iso_" + ("string" if "lit" in case["iso"] else "nonstring"))
+        if case.get("shared_fx"):
+            tg.add("fx:shared_path")
+            ads = [("text" if isinstance(r["o"]["adapter"], dict) else r["o"]["adapter"]) for r in case["turns"]]
+            for a, b in zip(ads, ads[1:]):
+                tg.add(f"fx:{a}->{b}")
+        for r in case["turns"]:
+            if r["t"]["nowMs"] in (0, 1, None):
+                tg.add(f"clock:now_ms={r['t']['nowMs']}")
         prev_open_ok = False
         for rec, x in zip(case["turns"], impl_out["on"]):
             t, o = rec["t"], rec["o"]
